@@ -140,6 +140,23 @@ def unit_functions(prog, fn, depth=2):
                             if name in k.methods:
                                 cand = k.methods[name]
                                 break
+                elif isinstance(c.func, ast.Attribute) and isinstance(c.func.value, ast.Name) and \
+                        c.func.attr.startswith('_') and not c.func.attr.startswith('__') and \
+                        f.owner_class is not None and c.func.value.id in {
+                            a.targets[0].id for a in walk_fn(f) if isinstance(a, ast.Assign) and
+                            isinstance(a.targets[0], ast.Name) and
+                            (norm(a.value) == 'self' or (isinstance(a.value, ast.Call) and
+                                                         isinstance(a.value.func, ast.Attribute) and
+                                                         isinstance(a.value.func.value, ast.Name) and
+                                                         a.value.func.value.id in ('self', a.targets[0].id)))}:
+                    # a private method called on a local that holds this object or an object derived from it by one
+                    # of its own methods (`graph = self` ... `graph = graph.get_for_...()`): same class family
+                    name = c.func.attr
+                    cand = None
+                    for k in prog.mro(f.owner_class):
+                        if name in k.methods:
+                            cand = k.methods[name]
+                            break
                 elif isinstance(c.func, ast.Name) and c.func.id.startswith('_'):
                     name = c.func.id
                     cand = f.module.functions.get(name) if hasattr(f.module, 'functions') else None
